@@ -13,7 +13,7 @@ RULE = (
     "brute-force oracles need no tolerance) with many ties and zeros; a base field g that is one of the five built-in base functions "
     "evaluated on a generated grid/tower/wind, f itself, or a random dyadic field with ties; a strictly increasing transform and a "
     "permutation of the cells; fractions p in {k/16} or arbitrary floats in (0,1]; power-of-two cell sizes; 2-D or 3-D input with 1-D "
-    "or 2-D coordinate arrays. Oracles: for every cell lo = sum f[g > g_c] <= rescaled_c <= hi = sum f[g >= g_c] - f_c (so exact for "
+    "or 2-D coordinate arrays; C-ordered, Fortran-ordered or transposed-view memory layouts of f and g. Oracles: for every cell lo = sum f[g > g_c] <= rescaled_c <= hi = sum f[g >= g_c] - f_c (so exact for "
     "untied cells), also after the monotone transform of g and after the common permutation; rescaled does not increase with g; "
     "percentile contour: count = fewest highest cells whose sum reaches p*total, level = count-th largest value, area = count*dx*dy, "
     "monotone in p, f -> c f scales the level and keeps the area, 3-D input at level l == 2-D call on that slice. "
@@ -45,6 +45,7 @@ def _case(draw):
             "p2": draw(st.integers(1, 16).map(lambda k: k / 16.0)),
             "scale": draw(st.sampled_from([0.25, 2.0, 1024.0])),
             "coords": draw(st.sampled_from(["1d", "2d"])),
+            "layout": draw(st.sampled_from(["C", "C", "F", "view"])),
             "stack": draw(st.integers(1, 3)), "level": 0}
     case["level"] = draw(st.integers(0, case["stack"] - 1))
     return case
@@ -91,9 +92,14 @@ def check_case(case):
     y = np.arange(ny) * case["dy"]
     X, Y = np.meshgrid(x, y)
     g = np.asarray(_g(case, f, X, Y), float)
+    lay = case.get("layout", "C")
+    if lay == "F":  # column-major arrays, e.g. from np.meshgrid(..., indexing="ij").T or Fortran-ordered I/O
+        f, g = np.asfortranarray(f), np.asfortranarray(g)
+    elif lay == "view":  # transposed views of C arrays
+        f, g = np.ascontiguousarray(f.T).T, np.ascontiguousarray(g.T).T
     total = f.sum()
     out.label("g=" + case["gkind"], "ties-in-g" if len(np.unique(g)) < g.size else "g-untied",
-              "zeros-in-f" if (f == 0).any() else "f-positive", f"coords={case['coords']}", f"stack={case['stack']}")
+              "zeros-in-f" if (f == 0).any() else "f-positive", f"coords={case['coords']}", f"stack={case['stack']}", "layout=" + lay)
 
     lo, hi = _bounds(f, g)
 
